@@ -78,12 +78,15 @@ def fromString (version : Str) : Except PyExc Ver :=
     | .error x => .error x
     | .ok er => .ok (parseRevision er.1 er.2)
 
+/-- the `epoch:upstream` (or `upstream`) part of `Version.__str__` -/
+def verPrefix (v : Ver) : Str :=
+  if v.epoch ≠ 0 then natToStr v.epoch ++ ':' :: v.upstream else v.upstream
+
 /-- `Version.__str__` (revision is never `None` for parsed versions) -/
 def toStr (v : Ver) : Str :=
-  let version := if v.epoch ≠ 0 then natToStr v.epoch ++ ':' :: v.upstream else v.upstream
-  if v.revision ≠ ['0'] || version.contains '-' || !isValidVersion version then
-    version ++ '-' :: v.revision
-  else version
+  if v.revision ≠ ['0'] || (verPrefix v).contains '-' || !isValidVersion (verPrefix v) then
+    verPrefix v ++ '-' :: v.revision
+  else verPrefix v
 
 /-! ### comparison -/
 
